@@ -366,7 +366,7 @@ class Decoder:
         language = datatype = None
         if literal.langtag:
             language = literal.langtag
-        elif self.datatypes.lookup_size and literal.HasField("datatype"):
+        elif literal.HasField("datatype"):
             datatype = self.datatypes.decode_datatype_term_index(literal.datatype)
         return self.adapter.literal(
             lex=literal.lex,
